@@ -103,7 +103,10 @@ def concretize_time(tc, probe=False):
         progs.append({"pend": 0, "read": "none", "keep": "handler", "resp": dict(empty)})
     cfg = {"ka_ms": s["ka_ms"], "head_ms": s["head_ms"], "disc_ms": s["disc_ms"], "half_closed": tc.get("half_closed", True),
            "graceful": bool(s["grace"])}
-    case = h1gen.assemble(reqs, progs, cfg=cfg, sock={"shutdown": s["shut"]}, epilogue=False, probe=probe)
+    sock = {"shutdown": s["shut"]}
+    if s.get("b0", 99) == 0:
+        sock["budget"] = 0          # the socket accepts nothing until the script makes it writable
+    case = h1gen.assemble(reqs, progs, cfg=cfg, sock=sock, epilogue=False, probe=probe)
     g1 = case["gt"][0]
     unit_bytes = [g1["headlen"] // 2, g1["headlen"] - g1["headlen"] // 2] + ([12] if s["body"] else [])
     if s["n"] == 2:
@@ -129,20 +132,23 @@ def time_fidelity(rep, tpath, all_cases):
     """Model conformance (not a verdict): for every replayed H1Time script, what the model predicted the client sees up to the end
     of the script (response heads, how the task ended) against what the real dispatcher did. Disagreements are listed in the evidence."""
     want = {n + 1: c["pred"] for n, c in enumerate(all_cases) if "pred" in c}
+    nsteps = {n + 1: len(c["model_script"]["steps"]) for n, c in enumerate(all_cases) if "pred" in c}
     if not want:
         return
-    got, run, live = {}, 0, False
+    got, run, live, envs = {}, 0, False, 0
     with open(tpath) as f:
         for line in f:
             e = json.loads(line)
             ev = e.get("ev")
             if ev == "Reset":
-                run, live = e["run"], e["run"] in want
+                run, live, envs = e["run"], e["run"] in want, 0
                 if live:
                     got[run] = []
             elif live:
-                if ev == "Writable" and e.get("k") == -1:
-                    live = False            # the epilogue starts here
+                if ev in ("Feed", "Eof", "HTok", "Signal", "Tick", "Writable"):
+                    envs += 1
+                    if envs > nsteps[run]:
+                        live = False        # the first step of the epilogue
                 elif ev == "Resp" and not e.get("interim"):
                     got[run].append({"s": e["status"], "c": "close" if e.get("conn") == "close" else "-"})
                 elif ev == "Done":
